@@ -91,7 +91,8 @@ def run(ctx: RunCtx) -> None:
     with s2.http_seams(sched, det):
         cluster = s2.Cluster(ctx, sched, S.StickyProto, lambda: S.StickyImpl(world), n_workers=1,
                              app_kwargs=dict(prefix=prefix, token_key=key, enable_sticky=True, sticky_default_ttl=300.0,
-                                             authenticate=s2.header_authenticate))
+                                             authenticate=s2.header_authenticate, enable_not_found_page=False,
+                                             enable_landing_page=False, enable_describe_page=False))
         app = cluster.workers[0].app
         registry = S.registry_of(app)
         handle = drain_handle(app)
